@@ -345,6 +345,7 @@ type c16Seq struct {
 	Mode     string    `json:"mode"`
 	NewTime  bool      `json:"new_time_format"`
 	Mixed    bool      `json:"receiver_uses_the_other_time_format,omitempty"`
+	Reuse    bool      `json:"caller_reuses_its_response_structs,omitempty"` // as raft's replication loops do (one resp variable across calls)
 	Calls    []c16Call `json:"calls"`
 	Detail   string    `json:"detail,omitempty"`
 }
@@ -397,8 +398,16 @@ func (c c16Call) nonEmpty() bool {
 func c16RunSeq(seq *c16Seq) string {
 	e := newC16Env(2, seq.NewTime, time.Second, seq.Mixed)
 	defer e.close()
+	var aeGot raft.AppendEntriesResponse
+	var rvGot raft.RequestVoteResponse
+	var pvGot raft.RequestPreVoteResponse
+	var tnGot raft.TimeoutNowResponse
+	var isGot raft.InstallSnapshotResponse
 	for i, c := range seq.Calls {
 		c := c
+		if !seq.Reuse {
+			aeGot, rvGot, pvGot, tnGot, isGot = raft.AppendEntriesResponse{}, raft.RequestVoteResponse{}, raft.RequestPreVoteResponse{}, raft.TimeoutNowResponse{}, raft.InstallSnapshotResponse{}
+		}
 		var want any
 		switch c.Kind {
 		case "AE":
@@ -429,8 +438,8 @@ func c16RunSeq(seq *c16Seq) string {
 		var cmpResp func() string
 		switch c.Kind {
 		case "AE":
-			var got raft.AppendEntriesResponse
-			err = e.t1.AppendEntries("n2", "n2", c.AE, &got)
+			got := &aeGot
+			err = e.t1.AppendEntries("n2", "n2", c.AE, got)
 			cmpReq = func(cmd any) string {
 				b, ok := cmd.(*raft.AppendEntriesRequest)
 				if !ok {
@@ -441,14 +450,14 @@ func c16RunSeq(seq *c16Seq) string {
 			cmpResp = func() string {
 				w := c.AEResp
 				if !eqHeader(got.RPCHeader, w.RPCHeader) || got.Term != w.Term || got.LastLog != w.LastLog || got.Success != w.Success || got.NoRetryBackoff != w.NoRetryBackoff {
-					return fmt.Sprintf("response: handler produced %+v caller received %+v", *w, got)
+					return fmt.Sprintf("response: handler produced %+v caller received %+v", *w, *got)
 				}
 				return ""
 			}
 		case "RV":
-			var got raft.RequestVoteResponse
+			got := &rvGot
 			req := c.RV
-			err = e.t1.RequestVote("n2", "n2", req, &got)
+			err = e.t1.RequestVote("n2", "n2", req, got)
 			cmpReq = func(cmd any) string {
 				b, ok := cmd.(*raft.RequestVoteRequest)
 				if !ok || !eqHeader(req.RPCHeader, b.RPCHeader) || req.Term != b.Term || !eqBytes(req.Candidate, b.Candidate) || req.LastLogIndex != b.LastLogIndex || req.LastLogTerm != b.LastLogTerm || req.LeadershipTransfer != b.LeadershipTransfer {
@@ -459,14 +468,14 @@ func c16RunSeq(seq *c16Seq) string {
 			cmpResp = func() string {
 				w := c.RVResp
 				if !eqHeader(got.RPCHeader, w.RPCHeader) || got.Term != w.Term || !eqBytes(got.Peers, w.Peers) || got.Granted != w.Granted {
-					return fmt.Sprintf("response: handler produced %+v caller received %+v", *w, got)
+					return fmt.Sprintf("response: handler produced %+v caller received %+v", *w, *got)
 				}
 				return ""
 			}
 		case "PV":
-			var got raft.RequestPreVoteResponse
+			got := &pvGot
 			req := c.PV
-			err = e.t1.RequestPreVote("n2", "n2", req, &got)
+			err = e.t1.RequestPreVote("n2", "n2", req, got)
 			cmpReq = func(cmd any) string {
 				b, ok := cmd.(*raft.RequestPreVoteRequest)
 				if !ok || !eqHeader(req.RPCHeader, b.RPCHeader) || req.Term != b.Term || req.LastLogIndex != b.LastLogIndex || req.LastLogTerm != b.LastLogTerm {
@@ -477,14 +486,14 @@ func c16RunSeq(seq *c16Seq) string {
 			cmpResp = func() string {
 				w := c.PVResp
 				if !eqHeader(got.RPCHeader, w.RPCHeader) || got.Term != w.Term || got.Granted != w.Granted {
-					return fmt.Sprintf("response: handler produced %+v caller received %+v", *w, got)
+					return fmt.Sprintf("response: handler produced %+v caller received %+v", *w, *got)
 				}
 				return ""
 			}
 		case "TN":
-			var got raft.TimeoutNowResponse
+			got := &tnGot
 			req := c.TN
-			err = e.t1.TimeoutNow("n2", "n2", req, &got)
+			err = e.t1.TimeoutNow("n2", "n2", req, got)
 			cmpReq = func(cmd any) string {
 				b, ok := cmd.(*raft.TimeoutNowRequest)
 				if !ok || !eqHeader(req.RPCHeader, b.RPCHeader) {
@@ -494,15 +503,15 @@ func c16RunSeq(seq *c16Seq) string {
 			}
 			cmpResp = func() string {
 				if !eqHeader(got.RPCHeader, c.TNResp.RPCHeader) {
-					return fmt.Sprintf("response: handler produced %+v caller received %+v", *c.TNResp, got)
+					return fmt.Sprintf("response: handler produced %+v caller received %+v", *c.TNResp, *got)
 				}
 				return ""
 			}
 		case "IS":
-			var got raft.InstallSnapshotResponse
+			got := &isGot
 			req := c.IS
 			body := c15Content(int(req.Size)+1, int(req.Size))
-			err = e.t1.InstallSnapshot("n2", "n2", req, &got, bytes.NewReader(body))
+			err = e.t1.InstallSnapshot("n2", "n2", req, got, bytes.NewReader(body))
 			cmpReq = func(cmd any) string {
 				b, ok := cmd.(*raft.InstallSnapshotRequest)
 				if !ok || !eqHeader(req.RPCHeader, b.RPCHeader) || req.SnapshotVersion != b.SnapshotVersion || req.Term != b.Term || !eqBytes(req.Leader, b.Leader) || req.LastLogIndex != b.LastLogIndex ||
@@ -525,7 +534,7 @@ func c16RunSeq(seq *c16Seq) string {
 			cmpResp = func() string {
 				w := c.ISResp
 				if !eqHeader(got.RPCHeader, w.RPCHeader) || got.Term != w.Term || got.Success != w.Success {
-					return fmt.Sprintf("response: handler produced %+v caller received %+v", *w, got)
+					return fmt.Sprintf("response: handler produced %+v caller received %+v", *w, *got)
 				}
 				return ""
 			}
@@ -567,7 +576,7 @@ func TestC16RoundTrip(t *testing.T) {
 		if r.Frozen() {
 			return
 		}
-		seq := &c16Seq{Property: "C16", Engine: "unit", Test: "TestC16Replay", Mode: "sequence", NewTime: rapid.Bool().Draw(rt, "newTimeFormat"), Mixed: rapid.IntRange(0, 2).Draw(rt, "mixedTimeFormat") == 0}
+		seq := &c16Seq{Property: "C16", Engine: "unit", Test: "TestC16Replay", Mode: "sequence", NewTime: rapid.Bool().Draw(rt, "newTimeFormat"), Mixed: rapid.IntRange(0, 2).Draw(rt, "mixedTimeFormat") == 0, Reuse: rapid.Bool().Draw(rt, "reuseResponseStructs")}
 		n := rapid.IntRange(1, 4).Draw(rt, "calls")
 		nonEmpty, errThenMore := false, false
 		var kinds []string
@@ -582,7 +591,7 @@ func TestC16RoundTrip(t *testing.T) {
 		}
 		var detail string
 		sim.Bubble(t, func() { detail = c16RunSeq(seq) })
-		r.Case(nonEmpty, rep.Hash(fmt.Sprint(kinds), seq.NewTime, seq.Mixed, errThenMore, rt), kinds[0], map[bool]string{true: "handler-error-then-more-calls", false: "no-handler-error-before-a-call"}[errThenMore], map[bool]string{true: "ends-configured-with-different-time-formats", false: "ends-configured-alike"}[seq.Mixed])
+		r.Case(nonEmpty, rep.Hash(fmt.Sprint(kinds), seq.NewTime, seq.Mixed, errThenMore, rt), kinds[0], map[bool]string{true: "handler-error-then-more-calls", false: "no-handler-error-before-a-call"}[errThenMore], map[bool]string{true: "ends-configured-with-different-time-formats", false: "ends-configured-alike"}[seq.Mixed], map[bool]string{true: "caller-reuses-its-response-structs", false: "fresh-response-struct-per-call"}[seq.Reuse])
 		if nonEmpty && r.WantSample() {
 			r.Sample(map[string]any{"rpcs": kinds, "new_time_format": seq.NewTime, "handler_error_then_more_calls": errThenMore})
 		}
